@@ -508,6 +508,9 @@ def merge_rotations(circuit: Circuit):
     for gi, gate in enumerate(circuit):
         merge_gate = False
 
+        # Work on a copy: parameters are accumulated in-place below, the input circuit must not be altered.
+        gate = Gate(gate.name, gate.target, gate.control, gate.parameter, gate.is_variational)
+
         # Identify qubits the current gate acts on.
         qubits = gate.target if gate.control is None else gate.target + gate.control
 
